@@ -318,6 +318,17 @@ def ob_map(mod, stats, tmo, keybits, prefix, nsym, scenario):
                 if conc_val(z3.Extract(0, 0, r)) != 1:
                     if len(pkeys) + nsym > 0:
                         probs.append(('iter_begin refuses a non-empty map', None))
+                        continue
+                    # empty map: the compiled for-in loop ignores the result of iter_begin and calls iter_next on the
+                    # iterator as iter_begin left it - that call must answer "no entry" without touching memory it
+                    # does not own (the iterator object starts out with arbitrary bytes, as a stack slot does)
+                    ko = s.mem.alloc(8, name='ko', kind='heap')
+                    vo = s.mem.alloc(8, name='vo', kind='heap')
+                    o2 = call(ex, [s], '@ferret_map_iter_next', lambda s_: [mp, s_.mem.ptr(it), s_.mem.ptr(ko), s_.mem.ptr(vo)])
+                    for s2, r2 in o2:
+                        rr, m = solver.check(list(s2.pc) + [z3.Extract(0, 0, r2) != bv(0, 1)])
+                        if rr != 'unsat':
+                            probs.append(('iter_next after iter_begin on an EMPTY map reports an entry (%s)' % rr, None))
                     continue
                 seen = []
                 cur = [s]
@@ -453,6 +464,7 @@ def main():
     jobs.append(('map', 32, 0, 2, 'get', tmo))
     jobs.append(('map', 32, 0, 2, 'size', tmo))
     jobs.append(('map', 32, 0, 1, 'iter', tmo))
+    jobs.append(('map', 32, 0, 0, 'iter', tmo))      # for-in over an EMPTY map: iter_begin refuses, the compiled loop calls iter_next anyway
     jobs.append(('map', 32, 12, 1, 'get', tmo))       # the 13th insert crosses the resize threshold with a symbolic key in flight
     jobs.append(('map', 32, 12, 1, 'size', tmo))
     jobs.append(('map', 64, 0, 1, 'all', tmo))
